@@ -95,7 +95,7 @@ PROPS = {
     note=E1_NOTE + " " + E2_NOTE,
     technique=E1_TECH + " + CFG dominance rule (shape test before element loop) on instantiations",
     e1=[dict(tu="c18_isequal.cpp"), dict(tu="c18b_arrays.cpp"), dict(tu="c18b_arrays_rt.cpp")],
-    e2=[dict(rule="R-EQSHAPE"), dict(rule="R-EQLEN"), dict(rule="R-MAYBE.compare")],
+    e2=[dict(rule="R-EITHERSIB"), dict(rule="R-EQSHAPE"), dict(rule="R-EQLEN"), dict(rule="R-MAYBE.compare")],
     e3=[dict(group="C18")],
     rule=E1_RULE,
     explanation="every case of the property's case table is an obligation with the call under test inside the case.",
@@ -137,7 +137,7 @@ PROPS["C07"] = dict(
     note=E2_NOTE,
     technique=E2_TECH,
     e1=[dict(tu="c07_outer_misc.cpp"), dict(tu="c07b_bcast.cpp"), dict(tu="c07c_where.cpp"), dict(tu="c07b_bcast_rt.cpp"), dict(tu="c07c_where_rt.cpp")],
-    e2=[dict(rule="R-UFUNC")],
+    e2=[dict(rule="R-EITHERSIB"), dict(rule="R-UFUNC")],
     e3=[dict(group="C07")],
     rule="E2: one instance per op call operator (R-UFOP), per view-level ufunc entry point (R-UFWD), per ufunc-view application site (R-UFAPPLY); distinct by qualified function; non-trivial = the function has a body with a return",
     explanation="Name -> scalar operation and operand order are structural facts of the op types and forwarding functions; they are compared with an oracle table and with the function's own parameter list.",
@@ -232,7 +232,7 @@ PROPS["C08"] = dict(
     note=E1_NOTE + " " + E2_NOTE + " Assumes that a (start, stop) slice selects the elements start..stop-1 in order (C05, not decided) and that flatten keeps C order (proved under C03).",
     technique=E1_TECH + " + structural fold-order rule over the reduction views (custom libTooling extractor)",
     e1=[dict(tu="c08_reduce.cpp"), dict(tu="c08b_fold.cpp"), dict(tu="c08c_reduce_views.cpp"), dict(tu="c08c_reduce_views_rt.cpp"), dict(tu="c02d_capacity2.cpp")],
-    e2=[dict(rule="R-FOLD"), dict(rule="R-AXISNORM"), dict(rule="R-UFWD.reduce"), dict(rule="R-PARAMUSE"), dict(rule="R-REDAXIS")],
+    e2=[dict(rule="R-FOLD"), dict(rule="R-AXISNORM"), dict(rule="R-UFWD.reduce"), dict(rule="R-PARAMUSE"), dict(rule="R-REDAXIS"), dict(rule="R-EITHERSIB")],
     rule=E1_RULE + "; E2: one instance per sum/prod/cumsum/cumprod overload, per reduce_/accumulate_/outer_ overload, per parameter of a reduction-composing view",
     explanation="Which elements enter a fold is an index-level fact (the slices), decided for all values; the order and accumulator position are structural facts of the fold loop.",
     not_decided="several reduction axes at once, axis=None path beyond 'flatten the whole array', dtype/initial value arithmetic, mean/var/stddev/vector_norm/trace, the slicing view (C05)",
